@@ -386,6 +386,16 @@ def is_validation(atom):
     return False
 
 
+def is_field_validation(atom):
+    """validation of an address / port field (std parser or the leading-zero / sign guards), as opposed to keyword and line-ending comparisons"""
+    a = atom[1] if atom[0] == 'not' else atom
+    if a[0] == 'call' and (a[1].startswith('parses:') or a[1] in ('starts_with',)):
+        return not (a[1] == 'starts_with' and a[2][0][0] == 'bytes')       # KEYWORD.starts_with(token) is a keyword test
+    if a[0] == 'eq' and any(x[0] == 'bytes' and x[1] == b'0' for x in (a[1], a[2])):
+        return True
+    return False
+
+
 def c12_v1(ctx, R):
     m = model(ctx, R)
     ev, outs = m.fp_outs()
@@ -445,7 +455,7 @@ def c05_v1(ctx, R):
         # (i) presence before validation: any validation of tokens 2..5 implies all of them are present
         val_ords = set()
         for a in o['pc']:
-            if is_validation(a):
+            if is_field_validation(a):
                 val_ords |= {k for k in token_ordinals(a) if k != 'mu' and k >= 2}
         if val_ords:
             ok = all(has(k) in o['pc'] for k in range(2, 6))
@@ -716,7 +726,7 @@ def missing_rule(ctx, R, rule):
             k = MISSING[v]
             val_ords = set()
             for a in o['pc']:
-                if is_validation(a):
+                if is_field_validation(a):
                     val_ords |= {j for j in token_ordinals(a) if j != 'mu' and j >= 2}
             ok = (T.bnot(has(k)) in o['pc'] or (T.eq0(T.mk_len(tk(k))) in o['pc'] and T.bnot(has(k + 1)) in o['pc'])) and not val_ords
             R.inst(rule, 'missing-token-%d-only-when-absent' % k, ok, expected='%s exactly when token %d is absent (or empty and last), nothing validated yet' % (v, k),
